@@ -11,8 +11,9 @@
   references of the eight expressible types and an identifier map over the four kinds all come
   back entry for entry (`all_hashes_preserved`, `all_references_and_identifiers_preserved`), and a
   second pass over a package node of that class changes nothing (`second_pass_package_node`).
-  PARTIAL: the second pass is proved per package node and for the edge list; file nodes and the
-  tools-golang agent codec on the second pass are decided by stream `spdx`.
+  and over a file node (`second_pass_file_node`).
+  PARTIAL: the second pass is proved node by node and for the edge list; that the tools-golang
+  agent codec is again the identity on what came back is decided by stream `spdx`.
 -/
 import Protobom.Proofs.Spdx
 import Protobom.Proofs.SpdxAttrs
@@ -234,7 +235,7 @@ theorem file_scalars_preserved (n : Node) :
     (fileToNode (fileOf n)).attr "Comment" = some (.str (Node.str n "Comment")) ∧
     (fileToNode (fileOf n)).attr "Copyright" =
       some (.str (if Str.trimSpace (Node.str n "Copyright") = "" then "NONE" else Str.trimSpace (Node.str n "Copyright"))) := by
-  refine ⟨?_, ?_, ?_, ?_, ?_⟩ <;> (rw [file_attr n _ .str (by simp [Schema.nodeAttrs])]; simp [fileAttr, fileOf])
+  refine ⟨?_, ?_, ?_, ?_, ?_⟩ <;> (rw [file_attr n _ .str (by simp [Schema.nodeAttrs])]; simp [fileAttr, fileOf, fileCopyright])
 
 end Protobom.C01
 
@@ -402,6 +403,11 @@ theorem all_references_and_identifiers_preserved (n : Node)
     node that came back and reading it again gives the same node — every attribute of the schema -/
 theorem second_pass_package_node (n : Node) (c : SpdxPkgNode n) : rtPkg (rtPkg n) = rtPkg n :=
   second_pass_package n c
+
+/-- the same for file nodes: names, licence texts, comments, file types, the trimmed copyright with
+    its `NONE` convention and the hash map are fixpoints of a second pass -/
+theorem second_pass_file_node (n : Node) (hk : ∀ kv ∈ n.hashes, kv.1 ∈ spdxHashes) (hnd : (n.hashes.map (·.1)).Nodup) :
+    rtFile (rtFile n) = rtFile n := second_pass_file n hk hnd
 
 /-- non-vacuity: a package with two hashes, a purl and a CPE is in the class -/
 example : SpdxPkgNode { id := "a", typ := 0, attrs := Schema.nodeAttrs.map (fun fk =>
